@@ -313,6 +313,45 @@ def entry_points(rep, tier):
             rep.nontrivial.add('entry-%s-%s' % (path, variant))
 
 
+class StartProc(TagProc):
+    """a process that defines initial_state() (x starts at 5, its default is 0)"""
+
+    def initial_state(self, config=None):
+        return {'v': {'x': 5}}
+
+
+def entry_points_initial_state(rep):
+    """The three entry points for a composite whose process defines
+    initial_state(): the same simulation through each."""
+    rep.evaluations += 1
+    rows = {}
+    for entry in ('composite', 'parts', 'store'):
+        c = Composite(processes={'p': StartProc({'tag': 'p'})}, topology={'p': {'v': ('pv',)}})
+        try:
+            if entry == 'composite':
+                eng = Engine(composite=c, display_info=False)
+            elif entry == 'parts':
+                eng = Engine(processes=c['processes'], topology=c['topology'],
+                             display_info=False)
+            else:
+                eng = Engine(store=c.generate_store(), display_info=False)
+            rows[entry] = rows_of(eng, 2)
+        except Exception as e:
+            rep.violation({'kind': 'entry-initial-state', 'entry': entry, 'what': 'raised'},
+                          'C16 a composite whose process defines initial_state() cannot be run '
+                          'through the %s entry point: %r' % (entry, e), {})
+            return
+    start = {e: r.get(0, r.get(0.0)) for e, r in rows.items()}
+    if not (rows['composite'] == rows['parts'] == rows['store']):
+        differs = sorted(e for e in rows if rows[e] != rows['composite'])
+        rep.violation({'kind': 'entry-initial-state', 'differs': differs,
+                       'start': json.dumps(start, sort_keys=True)},
+                      'C16 a composite whose process defines initial_state() ({v: {x: 5}}, '
+                      'default 0) starts differently through the three entry points: %r'
+                      % (start,), {})
+    rep.nontrivial.add('entry-initial-state')
+
+
 def steps_only(rep):
     """A composite that holds steps and no process runs through every entry point."""
     rep.evaluations += 1
@@ -543,6 +582,7 @@ def check(prop, tier, seed):
     rep.guard(entry_points, rep, tier, what='engine entry points')
     rep.guard(overrides, rep, what='schema overrides / MetaComposer')
     rep.guard(steps_only, rep, what='steps-only composite')
+    rep.guard(entry_points_initial_state, rep, what='entry points with initial_state()')
     return rep.finish()
 
 
@@ -557,4 +597,6 @@ def replay(prop, path):
     else:
         entry_points(rep, 'quick')
         overrides(rep)
+        steps_only(rep)
+        entry_points_initial_state(rep)
     return rep.finish(write=False)
